@@ -78,14 +78,17 @@ def run_rule(run, rule_id="C09.c"):
     if hf is None:
         unknown_idiom = f"helper {HELPER[1]} not found in {HELPER[0]}"
     else:
-        idiom = helper_idiom(hf.node)
-        if idiom is None:
-            unknown_idiom = (
-                f"{HELPER[1]}: not one of the enumerated exact truncating-division idioms; the analyser cannot decide "
-                f"whether `{src(hf.node.body[-1])[:80]}` rounds toward zero for all integers"
-            )
-        else:
-            run.ob(True, f"{HELPER[0]}::{HELPER[1]}", file=hm.rel, line=hf.node.lineno, detail="idiom", expected="exact truncating division", found=idiom)
+        # decide the helper for ALL integers in the (sign, sign, exactness, zero-quotient) domain
+        from . import truncdomain
+        try:
+            cases = truncdomain.decide(hm, HELPER[1])
+        except AnalysisError as e:
+            cases = None
+            unknown_idiom = f"{HELPER[1]}: {e}"
+        if cases is not None:
+            for desc, exp, got, ok in cases:
+                run.ob(ok, f"{HELPER[0]}::{HELPER[1]}", file=hm.rel, line=hf.node.lineno, detail=desc,
+                       expected=f"trunc(a/b) = {exp} (Q = |a| // |b|)", found=f"{got}", sample=(desc.startswith("a- b+ exact |q|>=1")))
     for rel, own in MODS.items():
         mod = idx.mod(rel)
         for q, f in mod.functions.items():
